@@ -50,9 +50,8 @@
          position only). With `Tap`, a Next-callback panic followed by a panic of the error callback
          that receives it loses the first cause altogether (`tap_first_cause_lost_witness`;
          `every_failure_reaches_someone` requires `Forwards`, which `Tap` does not satisfy).
-   (iii) `Future`: its bare goroutine was repaired (8bf73dd: a panicking factory no longer kills the
-         process); what remains is of class (ii): the panic goes to the unhandled hook and the
-         subscriber never gets a terminal (`future_factory_panic_witness`, `future_partial`).
+   (iii) `Future` — repaired in /repo (8bf73dd: goroutine recovered; 34cf01a: a factory panic becomes
+         `Error(observable(p))`); now a theorem, not a deviation: `future_factory_panic`.
    (v)   a panicking teardown is re-raised to whoever triggered the unsubscription: into the
          producer's goroutine for a hot source (`teardown_panic_escapes_witness`), into the caller
          of `Unsubscribe` (`teardown_panic_unsubscribe_witness`); inside `Subscribe` it is recovered
@@ -269,15 +268,19 @@ theorem go_statements_recovered : goOK [] RoGen.Catalogue.table = true := by dec
 /-- what a bare goroutine would mean at run time (the state of `Future` before 8bf73dd) -/
 theorem bare_goroutine_crashes (p : Err) : goBody false (some p) = .crash p := rfl
 
-/-- (iii) `Future` as repaired: the factory's panic no longer kills the process, it goes to the
-    unhandled-error hook (unwrapped) — and the subscriber, who exists and could receive it, gets
-    neither an Error notification nor any other terminal -/
-theorem future_factory_panic_witness :
-    futureRun true (some (.user 5)) 1 = { res := .unhandled (.user 5), seen := [] } := by decide
+/-- (iii, repaired by 8bf73dd + 34cf01a) `Future`: whatever the factory does, nothing is left for
+    the goroutine's wrapper; a returning factory delivers `Next, Complete`; a panicking factory
+    (error value or any other value) reaches the subscriber exactly once, as an Error notification
+    whose `Unwrap` chain contains the cause, with nothing after it -/
+theorem future_factory_panic (p : Err) (v : Int) :
+    (futureRun (some p) v).res = .returned ∧
+    (futureRun (some p) v).seen = [.error {} (.observable p)] ∧
+    p ∈ (Err.observable p).chain ∧
+    Grammar (futureRun (some p) v).seen :=
+  ⟨rfl, rfl, Err.mem_chain_observable p p (Err.self_mem_chain p), by simp [futureRun, Grammar]⟩
 
-/-- … `_partial`: a factory that returns delivers `Next, Complete`, whatever the wrapper -/
-theorem future_partial (recovered : Bool) (v : Int) :
-    futureRun recovered none v = { res := .returned, seen := [.next {} v, .complete {}] } := rfl
+theorem future_factory_returns (v : Int) :
+    futureRun none v = { res := .returned, seen := [.next {} v, .complete {}] } := rfl
 
 /-! ## deviation witnesses (each replayed on the real code, see known_findings.jsonl) -/
 
@@ -435,8 +438,8 @@ end Ro.C07
 #print axioms Ro.C07.go_user_code_never_crashes
 #print axioms Ro.C07.go_statements_recovered
 #print axioms Ro.C07.bare_goroutine_crashes
-#print axioms Ro.C07.future_factory_panic_witness
-#print axioms Ro.C07.future_partial
+#print axioms Ro.C07.future_factory_panic
+#print axioms Ro.C07.future_factory_returns
 #print axioms Ro.C07.final_onNext_panic_witness
 #print axioms Ro.C07.final_onNext_panic_breaks_grammar
 #print axioms Ro.C07.throwIfEmpty_throw_panic_witness
